@@ -1,17 +1,28 @@
 package netstate
 
-// H19b: notification never blocks; events beyond 8 undrained ones are dropped.
+// H19b: notification never blocks; events beyond 8 undrained ones are dropped
+// -- for that subscriber only: a second subscriber with the very same
+// interface and mask, registered later, that does drain its channel keeps
+// receiving every change while the first one's buffer is full.
 func zzH19b() {
 	w := NewWatcher()
 	ch := w.Subscribe("eth0", LinkAny)
+	peer := w.Subscribe("eth0", LinkAny)
 	var occurred []Change
 	for i := 0; i < 10; i++ {
 		c := zzChange("c")
 		occurred = append(occurred, c)
 		w.notify(changeSet{"eth0": {c}})
+		select {
+		case got := <-peer:
+			zzAssert(got == c, "draining-peer-gets-every-change")
+		default:
+			zzAssert(false, "draining-peer-gets-every-change")
+		}
 	}
 	zzAssert(len(ch) == 8, "buffer-holds-8")
 	for i := 0; i < 8; i++ {
 		zzAssert(<-ch == occurred[i], "first-8-kept-in-order")
 	}
+	zzAssert(len(peer) == 0, "peer-got-nothing-twice")
 }
